@@ -18,6 +18,11 @@ pub struct C12Case {
     pub fam: FamCase,
     /// inject model failures at every call index of the statistics phase (hand-written models)
     pub stats_faults: bool,
+    /// optimizer settings (None = the default configuration); a quarter of the cases use generated
+    /// ones, including tolerances of zero and patience of a few evaluations, so that failed fits of
+    /// every kind reach fit_with_statistics
+    #[serde(default)]
+    pub lm: Option<super::drive::LmCfg>,
 }
 
 fn ulp_close<T: Sc>(a: f64, b: f64, ulps: f64) -> bool {
@@ -31,7 +36,10 @@ fn run<T: Sc>(case: &C12Case) -> Check {
     pc.mrhs = false;
     let (n, m, p) = (fam.n(), fam.spec.m(), fam.spec.p);
     let dof = n as i64 - (m + p) as i64;
-    let solver = LevenbergMarquardt::<T>::new();
+    let solver = match &case.lm {
+        Some(l) => l.resolved::<T>().solver::<T>(),
+        None => LevenbergMarquardt::<T>::new(),
+    };
 
     // plain fit first (its verdict decides what fit_with_statistics may return)
     let ctl_fit = Ctl::new();
@@ -47,8 +55,9 @@ fn run<T: Sc>(case: &C12Case) -> Check {
     if fo.report.term != fit_only.report.term {
         return Err(Fail::new("c12.termination", format!("fit_with_statistics terminates with {:?}, fit with {:?} on identical inputs", fo.report.term, fit_only.report.term)));
     }
-    if !fit_only.ok && fo.ok {
-        return Err(Fail::new("c12.ok_after_failed_fit", format!("the fit failed ({:?}) but fit_with_statistics returned Ok", fit_only.report.term)));
+    // "the fit failed" is decided by the harness' own list of successful termination reasons
+    if (!fit_only.ok || !fo.report.term.counts_as_success()) && fo.ok {
+        return Err(Fail::new("c12.ok_after_failed_fit", format!("the fit failed ({:?}) but fit_with_statistics returned Ok", fo.report.term)));
     }
     if dof <= 0 && fo.ok {
         return Err(Fail::new("c12.ok_underdetermined", format!("fit_with_statistics returned Ok for N = {n}, M = {m}, P = {p} (N <= M + P)")));
@@ -130,6 +139,9 @@ fn run<T: Sc>(case: &C12Case) -> Check {
     });
     out.class(if fam.f32 { "f32" } else { "f64" });
     out.class(if fam.w.is_some() { "weighted" } else { "unweighted" });
+    if case.lm.is_some() {
+        out.class(format!("generated-optimizer-settings:{}", fo.report.term.tag()));
+    }
     for r in fam.regime() {
         out.class(r);
     }
@@ -154,8 +166,8 @@ impl Property for C12 {
     }
     fn strategy(&self, _tier: Tier) -> BoxedStrategy<C12Case> {
         let cfg = FamCfg { max_s: 1, min_n: 4, max_n: 40, noise_lo: 1e-4, noise_hi: 1e-1, noiseless_16: 2, start_rel: 0.03, allow_f32: true, weights: true, calibrated_weights: false, extra_families: true, wide_weights: true, max_decays: 3, units: true, long_data: true };
-        (family_strategy(cfg), any::<u16>(), any::<u16>())
-            .prop_map(|(mut fam, nsel, fl)| {
+        (family_strategy(cfg), any::<u16>(), any::<u16>(), super::drive::lm_strategy(40), any::<u16>())
+            .prop_map(|(mut fam, nsel, fl, lm, lmsel)| {
                 // choose N relative to M+P: small differences over-sampled
                 let mp = fam.spec.m() + fam.spec.p;
                 let deltas: [i64; 13] = [-3, -2, -1, -1, 0, 0, 1, 1, 2, 3, 8, 25, 1200];
@@ -172,7 +184,7 @@ impl Property for C12 {
                 }
                 fam.mrhs = false;
                 fam.c_true.truncate(1);
-                C12Case { fam, stats_faults: fl % 4 == 0 }
+                C12Case { fam, stats_faults: fl % 4 == 0, lm: if lmsel % 4 == 0 { Some(lm) } else { None } }
             })
             .boxed()
     }
